@@ -372,6 +372,8 @@ def where(span):
 
 def _diverges(block):
     """block always ends by leaving the enclosing control flow (return/break/continue/panic as last statement)"""
+    if is_node(block) and block[0] == "block" and not block[1]:
+        return False
     if not (is_node(block) and block[0] == "block" and block[1]):
         n = block
     else:
